@@ -474,7 +474,9 @@ GEOM_FILE = "mouette/geometry/geometry.py"
 PRIM_HEADER = ("import Mouette.Model.Prim\nset_option linter.unusedVariables false\nnamespace Mouette.Generated.C12Prim\nopen Mouette.Prim\n\n"
                "/-! Bodies of closed-form primitives of `mouette/geometry/geometry.py` over ℚ, on the vector vocabulary of `Model/Prim.lean`\n"
                "(`V2`/`V3` with `add sub smul dot cross norm2`, `det2`, `rabs`).  Square roots are never taken: a value produced by `.norm()` /\n"
-               "`distance(..)` is carried by its SQUARE, and `math.atan2(s, c)` with `s` such a value is returned as the pair `(s², c)`. -/\n\n"
+               "`distance(..)` / `norm(..)` is carried by its SQUARE, and `math.atan2(s, c)` with `s` such a value is returned as the pair `(s², c)`.\n"
+               "A comparison between NON-NEGATIVE values one of which is such a value (`abs(x) <= c * norm(a) * norm(b)`, `c ≥ 0` a literal) is read\n"
+               "on the squares (`x*x ≤ (c*c) * |a|² * |b|²`): equivalent because both sides are non-negative. -/\n\n"
                "def rmax (a b : Rat) : Rat := if a ≤ b then b else a\ndef rmin (a b : Rat) : Rat := if a ≤ b then a else b\n\n")
 
 
@@ -515,6 +517,10 @@ class Pr:
             if aty in ("v2", "v3") and bty == "s" and op is ast.Mult: return f"({self.vops(aty)}.smul {b} {a})", aty
             if aty == "s" and bty == "s" and op in (ast.Add, ast.Sub, ast.Mult, ast.Div):
                 return f"({a} {({ast.Add: '+', ast.Sub: '-', ast.Mult: '*', ast.Div: '/'})[op]} {b})", "s"
+            if op is ast.Mult and "q" in (aty, bty):
+                # products of non-negative values known by their squares: the text IS the square
+                qa = self.as_q(n.left, a, aty); qb = self.as_q(n.right, b, bty)
+                return f"({qa} * {qb})", "q"
             raise TranslateError(f"{self.f}: arithmetic `{ast.unparse(n)[:60]}` on {aty}, {bty}")
         if isinstance(n, ast.Call):
             d = _call(n) or ""
@@ -541,6 +547,9 @@ class Pr:
             if d == "distance" and len(a) == 2:
                 x, xt = self.E(a[0]); y, yt = self.E(a[1])
                 if xt == yt and xt in ("v2", "v3"): return f"({self.vops(xt)}.norm2 ({self.vops(xt)}.sub {y} {x}))", "q"
+            if d == "norm" and len(a) == 1 and not n.keywords:
+                x, xt = self.E(a[0])
+                if xt in ("v2", "v3"): return f"({self.vops(xt)}.norm2 {x})", "q"
             if isinstance(n.func, ast.Attribute) and n.func.attr == "norm" and not a:
                 x, xt = self.E(n.func.value)
                 if xt in ("v2", "v3"): return f"({self.vops(xt)}.norm2 {x})", "q"
@@ -553,11 +562,21 @@ class Pr:
         if isinstance(n, ast.BinOp): pass
         raise TranslateError(f"{self.f}: expression `{ast.unparse(n)[:70]}` is not understood")
 
+    def as_q(self, node, t, ty):
+        """the SQUARE of a non-negative value: a value of type 'q' (its text is its square), a non-negative literal, `abs(x)`"""
+        if ty == "q": return t
+        if isinstance(node, ast.Constant) and isinstance(node.value, (int, float)) and not isinstance(node.value, bool) and node.value >= 0:
+            return f"({t} * {t})"
+        if _call(node, "abs") and len(node.args) == 1:
+            x, xt = self.E(node.args[0])
+            if xt == "s": return f"({x} * {x})"
+        raise TranslateError(f"{self.f}: `{ast.unparse(node)[:50]}` is not known to be non-negative (needed to compare it with a norm on the squares)")
+
     def block(self, stmts, opt):
         if not stmts: raise TranslateError(f"{self.f}: no return")
         st, rest = stmts[0], stmts[1:]
         if isinstance(st, ast.Return):
-            if isinstance(st.value, ast.BinOp) and isinstance(st.value.op, ast.Mult):
+            if isinstance(st.value, ast.BinOp) and isinstance(st.value.op, ast.Mult) and not _call(st.value.right, "norm"):
                 a, aty = self.E(st.value.left); b, bty = self.E(st.value.right)
                 if aty == "i" and bty == "atan": return f"({a}, {b}.1, {b}.2)"        # sign * atan2(s, c)
             t, ty = self.E(st.value)
@@ -579,6 +598,10 @@ class Pr:
         if isinstance(st, ast.If) and not st.orelse and len(st.body) == 1 and isinstance(st.body[0], ast.Return) \
                 and isinstance(st.test, ast.Compare) and len(st.test.ops) == 1 and isinstance(st.test.ops[0], (ast.Lt, ast.LtE)):
             a, aty = self.E(st.test.left); b, bty = self.E(st.test.comparators[0])
+            if "q" in (aty, bty):
+                a, b = self.as_q(st.test.left, a, aty), self.as_q(st.test.comparators[0], b, bty)
+            elif not (aty == "s" and bty == "s"):
+                raise TranslateError(f"{self.f}: comparison of {aty} with {bty}")
             sym = "<" if isinstance(st.test.ops[0], ast.Lt) else "≤"
             r = st.body[0].value
             if isinstance(r, ast.Constant) and r.value is None and opt:
